@@ -11,7 +11,10 @@ import vlib
 LEVEL = "exploration"
 
 RULE = ("every recorded public call (lu+L/U/pivot, lu.inverse, qr+Q/R, cholesky+L/U, svd+U/V/s/S, and the four *_solve "
-        "routines with 1..4 right-hand sides) on integer-valued matrices of order <= 8 (|entries| <= 16), fed as A*2^se, "
+        "routines with 1..4 right-hand sides) on integer-valued matrices of order 1..12 (|entries| <= 16, cap 2 above order 8) plus a "
+        "size ladder at orders 20, 33, 64 (square, 20x12 / 33x20 / 64x33 tall and their wide transposes; unimodular block, "
+        "Hadamard, diagonally dominant SPD and SPD-with-a-negative-diagonal-entry inputs whose rank / conditioning certificate is "
+        "known by construction), fed as A*2^se, "
         "se in {0,+40,-40}, in f64 and f32; families: dense, diagonal, triangular, (signed) permutation, orthogonal "
         "(Hadamard blocks), low-rank-plus-ridge, zero leading entries with negative alternatives, mildly graded (rows/columns "
         "of a {-1,0,1} matrix scaled by 2^0..2^2), singular, tall / wide with "
@@ -174,7 +177,8 @@ def run(ctx):
     ctx.extra["harness_stats"] = stats
     ctx.extra["not_covered"] = [
         "accuracy finer than about 2^-10 relative to ||A|| (a small multiple of machine precision is NOT decided)",
-        "orders above 8, |entries| above 16 (cap shrinks to 4 at order 8), condition numbers above 2^12 (certified bound)",
+        "orders other than 1..12, 20, 33, 64; |entries| above 16 (cap 4 at order 8, 2 above); condition numbers above 2^12 (certified "
+        "bound); at orders >= 20 only structured inputs with a constructible integer certificate (no dense random matrices)",
         "graded singular values, non-integer data, rescalings other than 2^0, 2^40, 2^-40",
         "SVD factor clauses on rank-deficient input (statement silent), Cholesky on the semidefinite boundary",
     ]
